@@ -361,7 +361,16 @@ pub fn batch(engine: &dyn Engine, a: &BatchArgs) -> i32 {
                     status_text(&status)
                 };
                 let mut next = None;
-                if let Some((i, seed)) = started {
+                if status.code() == Some(98) {
+                    // the scheduler watchdog fired: the token holder was blocked outside of every
+                    // scheduling point (harness limitation, see sched.rs). Inconclusive, not a
+                    // violation; too many of them make the batch a harness error below
+                    *agg.counters.entry("inconclusive_harness_stall".to_string()).or_insert(0) += 1;
+                    if let Some((i, _)) = started {
+                        agg.evaluations += 1;
+                        next = Some(i + a.workers);
+                    }
+                } else if let Some((i, seed)) = started {
                     // the worker died inside run i without reporting: a crash of the host process
                     agg.evaluations += 1;
                     // the class of the workload (if the engine has classes) makes the signature specific
@@ -524,6 +533,10 @@ pub fn batch(engine: &dyn Engine, a: &BatchArgs) -> i32 {
         agg.decisions,
         agg.fired
     );
+    let stalls = agg.counters.get("inconclusive_harness_stall").copied().unwrap_or(0);
+    if stalls > 3 && stalls * 50 > agg.evaluations {
+        harness_errors.push(format!("{} of {} runs stalled outside of the scheduler", stalls, agg.evaluations));
+    }
     if !harness_errors.is_empty() {
         for e in &harness_errors {
             println!("HARNESS-ERROR: {}", e);
